@@ -60,6 +60,26 @@ CHECKS = {
    note=BASE_NOTE + 'Linearity of direct, onion_bordas, linbasex, rbasex image synthesis, set_center, radial_intensity, Distributions is checked on the implementation only; scipy.ndimage interpolation assumed linear; Hansen-Law Q instance rounds to 120 bits.',
    technique='Coq proofs (mathcomp + induction) over regenerated expressions + operator extraction on implementation',
    design='DESIGN.md §3 C04'),
+ 'C12': dict(
+   text=('Theorems (Coq, every shape, every origin): set_center with a whole-pixel origin is the stated translation for the '
+         'three crop modes (pixel formula + shape; valid_region maximal; maintain_data keeps every pixel), axes not selected or '
+         'None are untouched (also for fractional coordinates of unselected axes), negative origins wrap, origin preprocessing '
+         '(int(), Python round), order-1 fractional shift preserves total intensity and moves the centroid exactly (over R, '
+         'one-pixel margin), center_image odd/square for every parity and aspect. Tie: hand-written model/Center.v vs '
+         'implementation, exhaustive small-shape correspondence in exact arithmetic (vm_compute). Search: clauses on the '
+         'implementation incl. orders 2-5 with measured tolerances and dtypes.'),
+   note=BASE_NOTE + 'scipy.ndimage.shift(order=1) = linear interpolation is validated by correspondence only; orders 2-5 (spline prefilter) swept only.',
+   technique='Coq proof over list-of-rows model + vm_compute correspondence + property search on implementation',
+   design='DESIGN.md §3 C12'),
+ 'C13': dict(
+   text=('Theorems (Coq): centre of mass of a point-symmetric image is its centre, follows shifts and ignores positive scaling; the '
+         'autoconvolution of a symmetric projection is maximal exactly at twice the centre and only there (so the method returns '
+         'the centre on the half-pixel grid); image_center and unselected axes; convolution shift equivariance proved for '
+         'symmetric images only (_partial). Tie: exact integer-image correspondence of model/Origin.v. Search: equivariance, '
+         'scaling, symmetric images, Gaussian-fit on noiseless spots.'),
+   note=BASE_NOTE + 'Gaussian-fit optimiser (scipy curve_fit) is external: swept to 1e-6 px only.',
+   technique='Coq proof over exact-rational model + vm_compute correspondence + property search on implementation',
+   design='DESIGN.md §3 C13'),
  'C17': dict(
    text=('Theorems over regenerated expressions: Tikhonov with zero strength equals the plain inverse (daun diff/L2/L2c, rbasex, basex '
          'reg=0); daun reg=0/None take the same path for all degrees; daun default equals onion_peeling given W = B^T, and the '
